@@ -106,6 +106,10 @@ def output_test(actual, expected, _exact_strings):
         return all(each_actual in normalized_expected for each_actual in normalized_actual)
 
 
+#: The tolerance used when ``delta=None`` is given (as the assertions document)
+DEFAULT_DELTA = .001
+
+
 def equality_test(actual, expected, _exact_strings, _delta):
     """
 
@@ -131,7 +135,7 @@ def equality_test(actual, expected, _exact_strings, _delta):
     # Float comparison
     if ((isinstance(expected, float) and isinstance(actual, (float, int))) or
             (isinstance(actual, float) and isinstance(expected, (float, int)))):
-        error = _delta
+        error = DEFAULT_DELTA if _delta is None else _delta
         # Equal values are equal whatever the tolerance (inf - inf is nan, which is "close" to nothing)
         return expected == actual or abs(expected - actual) < error
     # Other numerics
